@@ -4,8 +4,8 @@ CONSTANTS
   Times = {0, 1, 2}
   Durs <- DursQ
   MaxTok = 3
-  MaxHolds = 2
-  MaxConds = 2
+  MaxHolds = 1
+  MaxConds = 1
   Monotone = TRUE
 INVARIANTS TypeOK MutualExclusion MutualExclusionNames HeldConsistent WalkIsOverlap ConfirmDeterministic
 PROPERTIES CreateIff TokensUnique ExpiredIsDead HeldIsExclusive OnlyReleaseUnholds
